@@ -115,6 +115,16 @@ Theorem C18_json_entries_from_source :
   (forall e, api_cjson_end e = cjson (render json_fuel (JkStruct "End") (gv_end e))).
 Proof. exact api_cjson_from_source. Qed.
 
+From Peppi Require Import Gen.SlppWriteSrc Proofs.SlppWriteLayout.
+(* ---- the content expression of every tar_append call, regenerated (Gen/SlppWriteSrc.v); the byte-level peppi.json through the
+   regenerated struct Peppi / Version / Quirks declarations ---- *)
+Theorem C18_slpp_writer_from_source : forall enc_peppi enc_meta enc_start enc_end enc_frames o g,
+  slpp_write enc_peppi enc_meta enc_start enc_end enc_frames (comp_of_opts o) g =
+  slpp_write_tbl enc_peppi enc_meta enc_start enc_end enc_frames o g.
+Proof. exact slpp_write_from_source. Qed.
+Theorem C18_peppi_json_from_source : forall v hash quirks, peppi_json v hash quirks = peppi_json_tbl v hash quirks.
+Proof. exact peppi_json_from_source. Qed.
+
 Print Assumptions C18_entry_order.
 Print Assumptions C18_entries_consistent.
 Print Assumptions C18_signature_at_offset_0.
@@ -131,3 +141,5 @@ Print Assumptions C18_peppi_arm_from_source.
 Print Assumptions C18_version_check_from_source.
 Print Assumptions C18_tar_from_source.
 Print Assumptions C18_json_entries_from_source.
+Print Assumptions C18_slpp_writer_from_source.
+Print Assumptions C18_peppi_json_from_source.
